@@ -202,6 +202,23 @@ theorem mem_foldl_insert {α : Type} [BEq α] [LawfulBEq α] (l : List α) : ∀
       · exact Or.inl (Or.inl h)
       · exact Or.inr h
 
+theorem mem_foldl_insert_map {α β : Type} [BEq β] [LawfulBEq β] (g : α → β) (l : List α) : ∀ (w : List β) (x : β),
+    x ∈ l.foldl (fun w a => w.insert (g a)) w ↔ x ∈ w ∨ ∃ a ∈ l, g a = x := by
+  induction l with
+  | nil => intro w x; simp
+  | cons a l ih =>
+    intro w x
+    simp only [List.foldl_cons, ih, List.mem_insert_iff, List.mem_cons]
+    constructor
+    · rintro ((h | h) | ⟨a', h1, h2⟩)
+      · exact Or.inr ⟨a, Or.inl rfl, h.symm⟩
+      · exact Or.inl h
+      · exact Or.inr ⟨a', Or.inr h1, h2⟩
+    · rintro (h | ⟨a', h1 | h1, h2⟩)
+      · exact Or.inl (Or.inr h)
+      · subst h1; exact Or.inl (Or.inl h2.symm)
+      · exact Or.inr ⟨a', h1, h2⟩
+
 /-! ## PART 4 — the block filter -/
 
 theorem filterOuts_spec (st : State) (scopes : List Nat) (txid : Nat) : ∀ (outs : List TxOut) (i : Nat) (f : Found),
@@ -359,5 +376,283 @@ theorem filterBlock_spec (st : State) (scopes : List Nat) (ops : List OutPoint)
       exact hrest f' rfl rfl (by simp [htt, r2])
     · simp only [if_true]
       exact hrest { f' with txs := f'.txs ++ [tx] } rfl rfl (by simp [htt, r2])
+
+/-! ## PART 5 — horizon expansion over all branches -/
+
+/-- The in-memory branch states of the recovered scopes are well-formed and agree with the address manager. -/
+def BrOK (W : Nat) (scopes : List Nat) (invalid : BranchId → List Nat) (st : State) : Prop :=
+  ∀ br, scopes.contains br.1 = true →
+    BranchOK (invalid br) (st.branch br) ∧ (st.branch br).window = W ∧ (st.branch br).nextUnfound = st.nextOf br
+
+/-- Branch `br` watches every valid child below `nextUnfound + W`. -/
+def ExpAt (W : Nat) (invalid : BranchId → List Nat) (st : State) (br : BranchId) : Prop :=
+  ∀ i, i < (st.branch br).nextUnfound + W → Valid (invalid br) i → i ∈ (st.branch br).addrs
+
+theorem branch_eq_of (st st' : State) (k : BranchId) (b : Branch) (hw : st'.window = st.window)
+    (hb : st'.branches = assocSet st.branches k b) (br : BranchId) :
+    st'.branch br = if br = k then b else st.branch br := by
+  unfold State.branch
+  rw [hb, hw]
+  exact lookupD_assocSet _ _ _ _ _
+
+theorem nextOf_eq_of (st st' : State) (k : BranchId) (v : Nat) (hn : st'.next = assocSet st.next k v)
+    (br : BranchId) : st'.nextOf br = if br = k then v else st.nextOf br := by
+  unfold State.nextOf
+  rw [hn]
+  exact lookupD_assocSet _ _ _ _ _
+
+theorem branch_upd (st : State) (k : BranchId) (b : Branch) (nx : List (BranchId × Nat)) (us : List Key)
+    (br : BranchId) :
+    ({ st with branches := assocSet st.branches k b, next := nx, used := us } : State).branch br
+      = if br = k then b else st.branch br :=
+  branch_eq_of st { st with branches := assocSet st.branches k b, next := nx, used := us } k b rfl rfl br
+
+theorem nextOf_upd (st : State) (k : BranchId) (v : Nat) (brs : List (BranchId × Branch)) (us : List Key)
+    (br : BranchId) :
+    ({ st with branches := brs, next := assocSet st.next k v, used := us } : State).nextOf br
+      = if br = k then v else st.nextOf br :=
+  nextOf_eq_of st { st with branches := brs, next := assocSet st.next k v, used := us } k v rfl br
+
+theorem expandFold_spec (W : Nat) (scopes : List Nat) (invalid : BranchId → List Nat) :
+    ∀ (ids : List BranchId) (st : State), (∀ k ∈ ids, scopes.contains k.1 = true) → BrOK W scopes invalid st →
+    (∃ brs, ids.foldl (fun st k => { st with branches := assocSet st.branches k (expand (invalid k) (st.branch k)) }) st
+        = { st with branches := brs }) ∧
+    BrOK W scopes invalid
+      (ids.foldl (fun st k => { st with branches := assocSet st.branches k (expand (invalid k) (st.branch k)) }) st) ∧
+    (∀ br, ExpAt W invalid st br → ExpAt W invalid
+      (ids.foldl (fun st k => { st with branches := assocSet st.branches k (expand (invalid k) (st.branch k)) }) st) br) ∧
+    (∀ k ∈ ids, ExpAt W invalid
+      (ids.foldl (fun st k => { st with branches := assocSet st.branches k (expand (invalid k) (st.branch k)) }) st) k) := by
+  intro ids
+  induction ids with
+  | nil => intro st _ hb; exact ⟨⟨st.branches, rfl⟩, hb, fun _ h => h, fun _ h => by cases h⟩
+  | cons k ids ih =>
+    intro st hids hb
+    simp only [List.foldl_cons]
+    have hk := hids k List.mem_cons_self
+    obtain ⟨hbk, hwk, hnk⟩ := hb k hk
+    obtain ⟨e1, e2, e3, e4, _, e6⟩ := expand_spec (invalid k) (st.branch k) hbk
+    have hbh := branch_horizon (invalid k) (st.branch k) hbk
+    -- the state after expanding branch k
+    have hb1 : BrOK W scopes invalid { st with branches := assocSet st.branches k (expand (invalid k) (st.branch k)) } := by
+      intro br hbr
+      rw [branch_upd]
+      by_cases hbk' : br = k
+      · rw [if_pos hbk', hbk']
+        exact ⟨e1, by rw [e3]; exact hwk, by rw [e2]; exact hnk⟩
+      · rw [if_neg hbk']; exact hb br hbr
+    have hx1 : ∀ br, ExpAt W invalid st br →
+        ExpAt W invalid { st with branches := assocSet st.branches k (expand (invalid k) (st.branch k)) } br := by
+      intro br hx i
+      rw [branch_upd]
+      by_cases hbk' : br = k
+      · rw [if_pos hbk', hbk']
+        intro hi hv
+        rw [e2] at hi
+        rw [hbk'] at hx
+        exact e6 i (hx i hi hv)
+      · rw [if_neg hbk']; exact hx i
+    have hxk : ExpAt W invalid { st with branches := assocSet st.branches k (expand (invalid k) (st.branch k)) } k := by
+      intro i
+      rw [branch_upd, if_pos rfl]
+      intro hi hv
+      apply hbh.2.2.2 i _ hv
+      show i < (expand (invalid k) (st.branch k)).nextUnfound + (expand (invalid k) (st.branch k)).window
+      rw [e3, hwk]; exact hi
+    obtain ⟨⟨brs, q1⟩, q2, q3, q4⟩ := ih _ (fun k' hk' => hids k' (List.mem_cons_of_mem _ hk')) hb1
+    refine ⟨⟨brs, by rw [q1]⟩, q2, fun br hx => q3 br (hx1 br hx), ?_⟩
+    intro k' hk'
+    rcases List.mem_cons.mp hk' with rfl | hk'
+    · exact q3 _ hxk
+    · exact q4 k' hk'
+
+/-- `expandHorizons:` keeps the branch invariant, changes nothing but the in-memory branch states, and makes every
+    branch of every recovered scope watch its window. -/
+theorem expandAll_spec (W : Nat) (scopes : List Nat) (invalid : BranchId → List Nat) (st : State)
+    (hsc : st.scopes = scopes) (hb : BrOK W scopes invalid st) :
+    (∃ brs, expandAll invalid st = { st with branches := brs }) ∧ BrOK W scopes invalid (expandAll invalid st) ∧
+    (∀ br, scopes.contains br.1 = true → ExpAt W invalid (expandAll invalid st) br) := by
+  obtain ⟨q1, q2, _, q4⟩ := expandFold_spec W scopes invalid (branchIds st.scopes) st
+    (fun k hk => by rw [hsc] at hk; exact (mem_branchIds scopes k).mp hk) hb
+  exact ⟨q1, q2, fun br hbr => q4 br (by rw [hsc]; exact (mem_branchIds scopes br).mpr hbr)⟩
+
+/-! ## PART 6 — `extendFoundAddresses` -/
+
+theorem reportFold_spec (inv : List Nat) : ∀ (idxs : List Nat) (b : Branch), BranchOK inv b →
+    BranchOK inv (idxs.foldl (fun b i => b.reportFound i) b) ∧
+    (idxs.foldl (fun b i => b.reportFound i) b).window = b.window ∧
+    b.nextUnfound ≤ (idxs.foldl (fun b i => b.reportFound i) b).nextUnfound ∧
+    (∀ i ∈ idxs, i < (idxs.foldl (fun b i => b.reportFound i) b).nextUnfound) := by
+  intro idxs
+  induction idxs with
+  | nil => intro b hb; exact ⟨hb, rfl, Nat.le_refl _, fun _ h => by cases h⟩
+  | cons a idxs ih =>
+    intro b hb
+    simp only [List.foldl_cons]
+    obtain ⟨q1, q2, q3, q4⟩ := ih (b.reportFound a) (branchOK_reportFound hb a)
+    have hw : (b.reportFound a).window = b.window := by unfold Branch.reportFound; split <;> rfl
+    have hn : b.nextUnfound ≤ (b.reportFound a).nextUnfound ∧ a < (b.reportFound a).nextUnfound := by
+      unfold Branch.reportFound; split <;> (try dsimp only) <;> omega
+    refine ⟨q1, by rw [q2, hw], by omega, ?_⟩
+    intro i hi
+    rcases List.mem_cons.mp hi with rfl | hi
+    · omega
+    · exact q4 i hi
+
+theorem extendFound_spec (W : Nat) (scopes : List Nat) (invalid : BranchId → List Nat) (st : State) (k : BranchId)
+    (idxs : List Nat) (hk : scopes.contains k.1 = true) (hb : BrOK W scopes invalid st) :
+    (∃ brs nx us, extendFound st k idxs = { st with branches := brs, next := nx, used := us }) ∧
+    BrOK W scopes invalid (extendFound st k idxs) ∧
+    (∀ br, st.nextOf br ≤ (extendFound st k idxs).nextOf br) ∧
+    (∀ x ∈ st.used, x ∈ (extendFound st k idxs).used) ∧
+    (∀ i ∈ idxs, i < (extendFound st k idxs).nextOf k ∧ (⟨k.1, k.2, i⟩ : Key) ∈ (extendFound st k idxs).used) := by
+  unfold extendFound
+  by_cases he : idxs.isEmpty = true
+  · simp only [he, if_true]
+    refine ⟨⟨st.branches, st.next, st.used, rfl⟩, hb, fun _ => Nat.le_refl _, fun _ h => h, ?_⟩
+    intro i hi
+    rw [List.isEmpty_iff] at he
+    rw [he] at hi; cases hi
+  · simp only [he]
+    obtain ⟨hbk, hwk, hnk⟩ := hb k hk
+    obtain ⟨q1, q2, q3, q4⟩ := reportFold_spec (invalid k) idxs (st.branch k) hbk
+    generalize hb' : idxs.foldl (fun b i => b.reportFound i) (st.branch k) = b' at q1 q2 q3 q4
+    have hne : ∃ i, i ∈ idxs := by
+      cases idxs with
+      | nil => simp at he
+      | cons a _ => exact ⟨a, List.mem_cons_self⟩
+    obtain ⟨i0, hi0⟩ := hne
+    have h0 := q4 i0 hi0
+    have hmax : max (st.nextOf k) (b'.nextUnfound - 1 + 1) = b'.nextUnfound := by omega
+    simp only [Bool.false_eq_true, if_false, hmax]
+    refine ⟨⟨_, _, _, rfl⟩, ?_, ?_, ?_, ?_⟩
+    · intro br hbr
+      rw [nextOf_upd, branch_upd]
+      by_cases hbk' : br = k
+      · rw [if_pos hbk', if_pos hbk', hbk']
+        exact ⟨q1, by rw [q2]; exact hwk, rfl⟩
+      · rw [if_neg hbk', if_neg hbk']
+        exact hb br hbr
+    · intro br
+      rw [nextOf_upd]
+      by_cases hbk' : br = k
+      · rw [if_pos hbk', hbk']; omega
+      · rw [if_neg hbk']; exact Nat.le_refl _
+    · intro x hx
+      exact (mem_foldl_insert_map (fun i => (⟨k.1, k.2, i⟩ : Key)) idxs st.used x).mpr (Or.inl hx)
+    · intro i hi
+      rw [nextOf_upd, if_pos rfl]
+      exact ⟨q4 i hi, (mem_foldl_insert_map (fun i => (⟨k.1, k.2, i⟩ : Key)) idxs st.used _).mpr (Or.inr ⟨i, hi, rfl⟩)⟩
+
+/-- One step of the `extendFoundAddresses` loop over the branches. -/
+def efStep (keys : List Key) (st : State) (k : BranchId) : State :=
+  extendFound st k ((keys.filter (fun key => key.scope == k.1 && key.internal == k.2)).map (·.index))
+
+theorem extendFold_spec (W : Nat) (scopes : List Nat) (invalid : BranchId → List Nat) (keys : List Key) :
+    ∀ (ids : List BranchId) (st : State), (∀ k ∈ ids, scopes.contains k.1 = true) → BrOK W scopes invalid st →
+    (∃ brs nx us, ids.foldl (efStep keys) st = { st with branches := brs, next := nx, used := us }) ∧
+    BrOK W scopes invalid (ids.foldl (efStep keys) st) ∧
+    (∀ br, st.nextOf br ≤ (ids.foldl (efStep keys) st).nextOf br) ∧
+    (∀ x ∈ st.used, x ∈ (ids.foldl (efStep keys) st).used) ∧
+    (∀ key ∈ keys, (key.scope, key.internal) ∈ ids →
+      key.index < (ids.foldl (efStep keys) st).nextOf (key.scope, key.internal) ∧
+      key ∈ (ids.foldl (efStep keys) st).used) := by
+  intro ids
+  induction ids with
+  | nil =>
+    intro st _ hb
+    exact ⟨⟨st.branches, st.next, st.used, rfl⟩, hb, fun _ => Nat.le_refl _, fun _ h => h, fun _ _ h => by cases h⟩
+  | cons k ids ih =>
+    intro st hids hb
+    simp only [List.foldl_cons]
+    obtain ⟨⟨brs1, nx1, us1, e1⟩, p2, p3, p4, p5⟩ := extendFound_spec W scopes invalid st k
+      ((keys.filter (fun key => key.scope == k.1 && key.internal == k.2)).map (·.index))
+      (hids k List.mem_cons_self) hb
+    obtain ⟨⟨brs, nx, us, e⟩, q2, q3, q4, q5⟩ := ih (efStep keys st k)
+      (fun k' hk' => hids k' (List.mem_cons_of_mem _ hk')) p2
+    refine ⟨⟨brs, nx, us, ?_⟩, q2, fun br => Nat.le_trans (p3 br) (q3 br), fun x hx => q4 x (p4 x hx), ?_⟩
+    · rw [e]; unfold efStep; rw [e1]
+    · intro key hkey hmem
+      rcases List.mem_cons.mp hmem with hk | hk
+      · have hidx : key.index ∈ (keys.filter (fun key => key.scope == k.1 && key.internal == k.2)).map (·.index) := by
+          apply List.mem_map.mpr
+          refine ⟨key, List.mem_filter.mpr ⟨hkey, ?_⟩, rfl⟩
+          rw [← hk]; simp
+        obtain ⟨h1, h2⟩ := p5 key.index hidx
+        subst hk
+        exact ⟨Nat.lt_of_lt_of_le h1 (q3 _), q4 _ h2⟩
+      · exact q5 key hkey hk
+
+/-! ## PART 7 — `addRelevantTx` -/
+
+theorem arOuts_spec (st : State) (scopes : List Nat) (hsc : st.scopes = scopes) (tx : Tx) :
+    ∀ (os : List TxOut) (i : Nat) (cs : List Credit) (used : List Key),
+    (∀ o ∈ os, ∀ k, o.key = some k → scopes.contains k.scope = true → k.index < st.nextOf (k.scope, k.internal)) →
+    (addRelevantTx.outs st tx os i cs used).1 = cs ++ (wouts scopes tx.id os i).map (fun p => (⟨p.1, p.2, false⟩ : Credit)) ∧
+    (∀ x ∈ used, x ∈ (addRelevantTx.outs st tx os i cs used).2) := by
+  intro os
+  induction os with
+  | nil => intro i cs used _; simp [addRelevantTx.outs, wouts]
+  | cons o rest ih =>
+    intro i cs used hk
+    have hkr : ∀ o' ∈ rest, ∀ k, o'.key = some k → scopes.contains k.scope = true →
+        k.index < st.nextOf (k.scope, k.internal) := fun o' ho' => hk o' (List.mem_cons_of_mem _ ho')
+    cases hkey : o.key with
+    | none =>
+      have hiw : isW scopes o = false := by simp only [isW, hkey]
+      simp only [addRelevantTx.outs, hkey, wouts, hiw]
+      exact ih (i + 1) cs used hkr
+    | some k =>
+      by_cases hc : scopes.contains k.scope = true
+      · have hiw : isW scopes o = true := by simp only [isW, hkey]; exact hc
+        have hlt := hk o List.mem_cons_self k hkey hc
+        simp only [addRelevantTx.outs, hkey, hsc, hc, hlt, decide_true, Bool.and_self, if_true, wouts, hiw]
+        obtain ⟨r1, r2⟩ := ih (i + 1) (cs ++ [⟨(tx.id, i), o.amount, false⟩]) (used.insert k) hkr
+        refine ⟨?_, fun x hx => r2 x (by simp [hx])⟩
+        rw [r1]; simp
+      · have hc' : scopes.contains k.scope = false := eq_false_of_ne_true hc
+        have hiw : isW scopes o = false := by simp only [isW, hkey]; exact hc'
+        simp only [addRelevantTx.outs, hkey, hsc, hc', Bool.false_and, Bool.false_eq_true, if_false, wouts, hiw]
+        exact ih (i + 1) cs used hkr
+
+theorem spentIn_single (tx : Tx) (op : OutPoint) : spentIn [tx] op = tx.ins.contains op := by
+  simp [spentIn]
+
+/-- `addRelevantTx` for a transaction not yet recorded, when the credits are exactly those of the transactions
+    `pre` processed so far and every wallet key the transaction pays is known to the address manager. -/
+theorem addRelevantTx_spec (st : State) (scopes : List Nat) (hsc : st.scopes = scopes) (pre : List Tx) (tx : Tx)
+    (h : Nat) (hfresh : ∀ p ∈ st.txs, p.1 ≠ tx.id) (hcr : st.credits = specCredits scopes pre)
+    (hknown : ∀ o ∈ tx.outs, ∀ k, o.key = some k → scopes.contains k.scope = true →
+      k.index < st.nextOf (k.scope, k.internal))
+    (hnew : ∀ p ∈ wouts scopes tx.id tx.outs 0, spentIn (pre ++ [tx]) p.1 = false) :
+    ∃ us, addRelevantTx st tx h =
+        { st with txs := st.txs ++ [(tx.id, h)], credits := specCredits scopes (pre ++ [tx]), used := us } ∧
+      ∀ x ∈ st.used, x ∈ us := by
+  have hany : (st.txs.any fun p => p.1 == tx.id) = false := by
+    rw [List.any_eq_false]
+    intro p hp; simpa using hfresh p hp
+  unfold addRelevantTx
+  simp only [hany, Bool.false_eq_true, if_false]
+  obtain ⟨r1, r2⟩ := arOuts_spec st scopes hsc tx tx.outs 0
+    (st.credits.map (fun c => if tx.ins.contains c.op then { c with spent := true } else c)) st.used hknown
+  generalize addRelevantTx.outs st tx tx.outs 0
+    (st.credits.map (fun c => if tx.ins.contains c.op then { c with spent := true } else c)) st.used = r at r1 r2
+  obtain ⟨cs, us⟩ := r
+  simp only at r1 r2 ⊢
+  refine ⟨us, ?_, r2⟩
+  have hcs : cs = specCredits scopes (pre ++ [tx]) := by
+    rw [r1, hcr]
+    simp only [specCredits, walletOuts_append, List.map_append, List.map_map]
+    congr 1
+    · apply List.map_congr_left
+      intro p _
+      simp only [Function.comp, spentIn_append, spentIn_single]
+      cases tx.ins.contains p.1 <;> simp
+    · have hw : walletOuts scopes [tx] = wouts scopes tx.id tx.outs 0 := by simp [walletOuts]
+      rw [hw]
+      apply List.map_congr_left
+      intro p hp
+      rw [hnew p hp]
+  rw [hcs]
 
 end Recovery
